@@ -334,7 +334,10 @@ class MCNP_Problem:
             else:
                 raise e
 
-        self.__load_data_inputs_to_object(self._data_inputs)
+        try:
+            self.__load_data_inputs_to_object(self._data_inputs)
+        except MalformedInputError as e:
+            handle_error(e)
         self._cells.update_pointers(
             self.cells,
             self.materials,
